@@ -9,7 +9,7 @@ Deleg(child, parent):  child.started and not child.evaluating and child.nst < MA
 import z3
 
 from cxxvc.kernel import Kernel, LoopSpec, Lemma
-from cxxvc.interp import Obj, Ptr, Loc, ArrLoc, Gap, MAX_DT, ExcVal, VOID, ThrowEx
+from cxxvc.interp import Obj, Ptr, Loc, ArrLoc, Gap, MAX_DT, ExcVal, VOID, ThrowEx, Opt
 from cxxvc import extract, models
 from contracts.gs import GS, GraphKernel, cache_le, rely_R, qj, INVALID_CURSOR
 
@@ -37,6 +37,9 @@ class ParentGraph(Obj):
     def m_evaluation_time(self, I, args, n):
         return self.T
 
+    def m_evaluating(self, I, args, n):
+        return I.ctx.fresh("parent_graph_evaluating", "bool")
+
     def m_schedule_node(self, I, args, n):
         ctx = I.ctx
         i, w = ctx.rv(args[0]), ctx.rv(args[1])
@@ -62,6 +65,9 @@ class ParentNode(Obj):
 
     def m_node_index(self, I, args, n):
         return self.pg.idx
+
+    def m_output(self, I, args, n):
+        return Obj("TSOutputView", "node_output")
 
     def m_valid(self, I, args, n):
         return z3.BoolVal(True)
@@ -254,6 +260,10 @@ class NestedNodeKernel(Kernel):
             ctx.store[(opts.oid, nm)] = z3.Bool("opt_" + nm)
         spec = Obj("spec", "spec")
         ctx.store[(spec.oid, "input_bindings")] = Obj("bindings", "input_bindings")
+        ob = Obj("NestedGraphOutputBinding", "output_binding")
+        ctx.store[(ob.oid, "target_path")] = z3.Int("output_target_path")
+        ctx.store[(ob.oid, "kind")] = z3.Int("output_binding_kind")
+        ctx.store[(spec.oid, "output_binding")] = Opt(z3.Bool("has_output_binding"), ob)
         cx = Obj("context", "node_context")
         ctx.store[(cx.oid, "options")] = opts
         ctx.store[(cx.oid, "spec")] = spec
@@ -298,6 +308,14 @@ class NestedNodeKernel(Kernel):
 
     def f_checked_nested_view(self, I, args, n):
         return self.nested
+
+    def f_walk_forwarding_target_path(self, I, args, n):
+        """the node's own output endpoint addressed by the binding: a forwarding leaf (domain of the contract: non-structural
+        nested outputs); whether it currently has a target is an observation with an arbitrary answer"""
+        o = Obj("TSOutputView", "forwarding_output")
+        o.m_forwarding = lambda I_, a, n_: z3.BoolVal(True)
+        o.m_forwarding_bound = lambda I_, a, n_: I_.ctx.fresh("forwarding_bound", "bool")
+        return o
 
     def f_single_nested_graph_bind_inputs(self, I, args, n):
         self.gs_(I, "binds", self.gg(I.ctx, "binds") + 1)
